@@ -39,7 +39,10 @@ def gen_world(rng):
             ["us", {"k": "array", "item": Un, "shape": [rng.choice([2, None])], "order": [0]}],
             ["inner", inner], ["ra", {"k": "ref", "target": A}], ["s", {"k": "string"}],
             ["rm", {"k": "array", "item": {"k": "ref", "target": L1}, "shape": [2, rng.choice([2, 3, None])], "order": [1, 0]}],
-            ["u2", Un2]]
+            ["u2", Un2],
+            # two referent array types of the SAME class name (name = item type + shape) laid out differently
+            ["g1", {"k": "ref", "target": {"k": "array", "item": {"k": "scalar", "name": "Float64"}, "shape": [2, 3], "order": [0, 1]}}],
+            ["g2", {"k": "ref", "target": {"k": "array", "item": {"k": "scalar", "name": "Float64"}, "shape": [2, 3], "order": [1, 0]}}]]
     while True:
         fields = [f for f in pool if rng.random() < 0.5]
         if any(G.has_kind(ft, "ref") or G.has_kind(ft, "union") for _, ft in fields) and 1 <= len(fields):
